@@ -116,7 +116,7 @@ func runWorker(prop Property, tier string, base uint64, from, to int, only map[i
 		}
 		ws.Uncontrolled += simhook.Uncontrolled
 		if i%detEvery == 0 || only != nil {
-			ws.Det[strconv.Itoa(i)] = eventDigest(c, v, ri)
+			ws.Det[strconv.Itoa(i)] = eventDigest(c, v, ri) + "|" + ri.OutDigest
 		}
 		if len(ws.Samples) < 2 && from == 0 && ri.Nontrivial {
 			fc := freeze(c, ri)
@@ -467,6 +467,7 @@ func driver(propID, tier string) int {
 
 	// determinism gate: the sampled runs again, in one fresh process with GOMAXPROCS=1
 	gateTrouble := ""
+	var gateViolations []workerViolation
 	if len(agg.Det) > 0 {
 		var idx []string
 		for k := range agg.Det {
@@ -489,7 +490,20 @@ func driver(propID, tier string) int {
 			for _, k := range idx {
 				if ws.Det[k] != agg.Det[k] {
 					gateTrouble = fmt.Sprintf("NONDETERMINISTIC SIMULATION: run index %s gave event digest %s, then %s in a second process (GOMAXPROCS=1)", k, agg.Det[k], ws.Det[k])
-					break
+					// C07 is about exactly this: if what the reference execution RENDERED differs between
+					// two processes running the same decisions, the library's output depends on state the
+					// simulator does not own (addresses, time, randomness) - a violation, not machinery trouble
+					a, b := strings.SplitN(agg.Det[k], "|", 2), strings.SplitN(ws.Det[k], "|", 2)
+					if propID == "C07" && len(a) == 2 && len(b) == 2 && a[1] != "" && a[1] != b[1] && len(gateViolations) < 3 {
+						i, _ := strconv.Atoi(k)
+						seed := RunSeed(base, propID, i)
+						c := prop.Gen(seed, tier)
+						gateViolations = append(gateViolations, workerViolation{Index: i, Seed: seed, Case: c,
+							V: &Violation{Rule: "C07-process-differs", Detail: fmt.Sprintf("run %d: the same construction under the same map-order decisions rendered different bytes in two processes (digests %s vs %s): output depends on state outside the construction (addresses, time, randomness). The replay file carries the recipe; the difference shows between processes, not inside one.", i, a[1], b[1])}})
+					}
+					if propID != "C07" {
+						break
+					}
 				}
 			}
 			if gateTrouble == "" {
@@ -504,6 +518,8 @@ func driver(propID, tier string) int {
 
 	agg.Violations = append(agg.Violations, deadlocks...)
 	agg.NViol += len(deadlocks)
+	agg.Violations = append(agg.Violations, gateViolations...)
+	agg.NViol += len(gateViolations)
 	// auxiliary legs a property runs after the sweep (C09: real goroutines under the race detector)
 	if pc, ok := prop.(PostChecker); ok {
 		pv, pcnt, perr := pc.Post(tier, base)
@@ -529,7 +545,7 @@ func driver(propID, tier string) int {
 	reported := 0
 	os.MkdirAll(filepath.Join(root, "replays"), 0755)
 	for _, wv := range agg.Violations {
-		if !strings.HasSuffix(wv.V.Rule, "-deadlock") {
+		if !strings.HasSuffix(wv.V.Rule, "-deadlock") && wv.V.Rule != "C07-process-differs" {
 			if kfs := classify(prop, wv.Case, findings, wv.V); kfs != nil {
 				for _, kf := range kfs {
 					knownSeen[kf.ID]++
@@ -546,7 +562,7 @@ func driver(propID, tier string) int {
 		var mc *Case
 		var mv *Violation
 		steps := 0
-		if strings.HasSuffix(wv.V.Rule, "-deadlock") {
+		if strings.HasSuffix(wv.V.Rule, "-deadlock") || wv.V.Rule == "C07-process-differs" {
 			mc, mv = wv.Case, wv.V
 		} else {
 			mc, mv, steps = minimise(prop, wv.Case, wv.V, 400)
